@@ -148,7 +148,7 @@ def main():
         }],
         'checks': checks,
         'not_applicable': [],
-        'notes': 'fix commits in /repo: 3e9833d (Bellerophon truncation error), 720588a (HeapVec::set_len assert); see KNOWN_FINDINGS and DESIGN.md 7/13. Two ties to the source on every run: (1) tools/rs2coq regenerates every source file of the crate except libm.rs, fpu.rs and the table data as Gallina (coq/gen/Src*.v) and proofs/SrcEq*.v + SrcFinal.v prove the result equal to the hand-written model and restate the end-to-end theorem for it (DESIGN.md 4.1b; red-teamed three times, tools/rs2coq/REDTEAM.md); (2) the correspondence harness runs the compiled crate (8 configurations x 2 build modes) against the extracted model and an exact oracle on directed generators. 117 independently seeded changes under seeded/ (4 rounds), all caught; white-box red team of the checks under tools/selftest/whitebox/.',
+        'notes': 'fix commits in /repo: 3e9833d (Bellerophon truncation error), 720588a (HeapVec::set_len assert); see KNOWN_FINDINGS and DESIGN.md 7/13. Two ties to the source on every run: (1) tools/rs2coq regenerates every source file of the crate except libm.rs, fpu.rs and the table data as Gallina (coq/gen/Src*.v) and proofs/SrcEq*.v + SrcFinal.v prove the result equal to the hand-written model and restate the end-to-end theorem for it (DESIGN.md 4.1b; red-teamed three times, tools/rs2coq/REDTEAM.md); (2) the correspondence harness runs the compiled crate (8 configurations x 2 build modes) against the extracted model and an exact oracle on directed generators. 121 independently seeded changes under seeded/ (5 rounds), all caught; white-box red team of the checks under tools/selftest/whitebox/.',
     }
     json.dump(man, open('/verif/MANIFEST.json', 'w'), indent=1)
     json.dump(levels, open('/verif/levels.json', 'w'), indent=1)
